@@ -192,6 +192,21 @@ Theorem C04_dnewton_null_derivative (C : numClosedFieldType) (A : arith C C C) (
 Proof. by move=> SR; apply: (dnewton_null_derivative SR). Qed.
 Print Assumptions C04_dnewton_null_derivative.
 
+(* dense mps_mnewton, main branch (p^ <> 0, p1^ <> 0): ep0 = 2^(2-wp) in the library, apeps = ap * (ep0 * n);
+   e_m n ep0 = (1-ur)^2 n ep0 kap n;  rho_m = (1-ur)^6 (1 + (1-ur) 16 epsv): the final factor 1 + 16 DBL_EPSILON is what
+   pays for the 53-bit radius arithmetic (um, ua are of the order 2^-wp here, uh and ur of the order 2^-53, so without
+   that factor COND could not hold).  PARTIAL: eta is a hypothesis; the branch p^ = 0 and the sparse path have no theorem. *)
+Theorem C04_mnewton_coded_sound_partial (C : numClosedFieldType) (A : arith C C C) (um ua uh ur epsv : C)
+    (n : nat) (cs ms : seq C) (z ep0 r0 eta : C) :
+  std_round A um ua uh ur epsv -> (0 < n)%N -> size cs = n.+1 -> ms_ok uh cs ms -> last 0 cs != 0 -> 0 <= ep0 ->
+  let o := mnewton_dense A n cs ms z ep0 r0 in
+  ph_of A z cs != 0 -> dh_of A z cs != 0 ->
+  `|dh_of A z cs - (Poly cs)^`().[z]| <= eta * `|dh_of A z cs| -> 0 <= eta -> eta < 1 ->
+  COND uh (rho_m ur epsv) (e_m uh ur n ep0) (gam um ua n) eta ->
+  exists2 w, root (Poly cs) w & `|z - w| <= o_rad o.
+Proof. by move=> SR _; apply: (mnewton_dense_sound SR). Qed.
+Print Assumptions C04_mnewton_coded_sound_partial.
+
 (* ---------------- non-vacuity ---------------- *)
 Section Examples.
 Let C := algC.
